@@ -15,6 +15,7 @@ package helper
 func Operate3[A any, B any, C any, R any](ac <-chan A, bc <-chan B, cc <-chan C, o func(A, B, C) R) <-chan R {
 	rc := make(chan R)
 
+	VerifStage("Operate3", 0, []any{ac, bc, cc}, []any{rc})
 	go func() {
 		defer close(rc)
 
